@@ -54,7 +54,8 @@ def main(pid, tier):
     for i in range(n):
         literal = r.random() < 0.7
         if literal:
-            excl = r.sample(WORDS, r.randint(1, 4))
+            # "all combinations of exclude / include lists": the empty exclude list (nothing to remove) included
+            excl = r.sample(WORDS, r.choice([0, 1, 1, 2, 3, 4]))
             incl = r.sample(WORDS, r.randint(0, 2))
         else:
             pool = ['^Patient', 'Date$', 'U.D', 'Echo|Flip', 'Series(Number|Description)', '[A-Z]{3}$', 'Time\\b', '^.$']
@@ -65,12 +66,12 @@ def main(pid, tier):
         got = [bool(flt(k, None)) for k in keys]
         exp = [bool(any(re.search(e, k) for e in excl) and not any(re.search(x, k) for x in incl)) for k in keys]
         rep.evaluations += 1
-        rep.count('filter/' + ('literal' if literal else 'regex'))
+        rep.count('filter/' + ('literal' if literal else 'regex') + ('/empty-exclude' if not excl else ''))
         rep.nontriv([excl, incl, keys])
         rep.sample({'suite': 'filter', 'excl': excl, 'incl': incl, 'keys': keys[:4]}, cap=3)
         if got != exp:
             rep.failure('make_key_regex_filter(%s, %s) on %s: %s, exclude-unless-included gives %s' % (excl, incl, keys, got, exp),
-                        {'tag': 'filter:regex', 'suite': 'filter', 'excl': excl, 'incl': incl, 'keys': keys})
+                        {'tag': 'filter:regex' + (':empty-exclude' if not excl else ''), 'suite': 'filter', 'excl': excl, 'incl': incl, 'keys': keys})
         if literal:
             reqs.append({'op': 'regex_filter', 'excl': excl, 'incl': incl, 'keys': keys})
             meta.append(('regex', (excl, incl, keys), got))
